@@ -326,23 +326,35 @@ theorem nl_root (c : Skein.Cfg) (G : List Nat) (Nn fm : Nat) (ts : Bits) (Ml : L
 
 /-- the level iteration: `while len(M)>Nb` versus rules 1–3 of section 3.5.6 -/
 theorem nodeLevels_eq (c : Skein.Cfg) (G : List Nat) (hG : IsBytes G) (hGl : G.length = 32 ∨ G.length = 64 ∨ G.length = 128)
-    (hNb : c.Nb = G.length) (Nn : Nat) (hNn : G.length ≤ Nn) (hYm : c.Ym ≤ 127) (B : Nat) (hB : B + Nn < 2 ^ 96) :
+    (hNb : c.Nb = G.length) (Nn : Nat) (hNn2 : 2 * G.length ≤ Nn) (B : Nat) (hB : B + Nn < 2 ^ 96) :
     ∀ (d l fuelM fuelS pos : Nat) (Ml : List Nat), l + d = c.Ym → 1 ≤ d → d ≤ fuelM → d ≤ fuelS → pos < 2 ^ 96 →
-      IsBytes Ml → (∃ q, 1 ≤ q ∧ Ml.length = q * G.length) → Ml.length ≤ B →
+      IsBytes Ml → (∃ q, 1 ≤ q ∧ Ml.length = q * G.length ∧ q ≤ 2 ^ (100 - l)) → Ml.length ≤ B →
       Skein.nodeLevels c G Nn fuelM ⟨lvTweak pos l, 128⟩ Ml = .ok (Spec.Skein.treeUp G Nn c.Ym fuelS l Ml) ∧
       IsBytes (Spec.Skein.treeUp G Nn c.Ym fuelS l Ml) ∧ (Spec.Skein.treeUp G Nn c.Ym fuelS l Ml).length = G.length := by
+  have hNn : G.length ≤ Nn := by omega
   have hNnpos : 0 < Nn := by omega
   intro d
   induction d with
   | zero => intro l fuelM fuelS pos Ml _ h1; omega
   | succ d ih =>
     intro l fuelM fuelS pos Ml hld _ hfm hfs hpos hMl hq hMB
-    obtain ⟨q, hq1, hq2⟩ := hq
+    obtain ⟨q, hq1, hq2, hq3⟩ := hq
     obtain ⟨fm, rfl⟩ : ∃ fm, fuelM = fm + 1 := ⟨fuelM - 1, by omega⟩
     obtain ⟨fs, rfl⟩ : ∃ fs, fuelS = fs + 1 := ⟨fuelS - 1, by omega⟩
-    have hl : l < 128 := by omega
     by_cases hgt : Ml.length > G.length
-    · -- a further level
+    · -- a further level: at least two blocks, so the level counter is still small
+      have hq2' : 2 ≤ q := by
+        rcases Nat.lt_or_ge q 2 with h | h
+        · have : q = 1 := by omega
+          rw [this, Nat.one_mul] at hq2; omega
+        · exact h
+      have hl99 : l ≤ 99 := by
+        rcases Nat.lt_or_ge l 100 with h | h
+        · omega
+        · rw [Nat.sub_eq_zero_of_le h] at hq3; simp at hq3; omega
+      have hpw : 2 ^ (100 - l) = 2 * 2 ^ (100 - (l + 1)) := by
+        rw [show 100 - l = (100 - (l + 1)) + 1 by omega, Nat.pow_succ, Nat.mul_comm]
+      have hl : l < 128 := by omega
       have g1 := getLevel_lv pos l hl hpos
       have s1 := setLevel_lv pos l (l + 1) hl hpos (by omega)
       have s2 := setPos_lv pos (l + 1) 0 (by omega) hpos (by decide)
@@ -382,6 +394,18 @@ theorem nodeLevels_eq (c : Skein.Cfg) (G : List Nat) (hG : IsBytes G) (hGl : G.l
           have : q * G.length ≤ q * Nn := Nat.mul_le_mul_left _ hNn
           rw [Nat.succ_mul, hq2]
           omega
+        have hkh : nblocks Ml.length Nn ≤ (q + 1) / 2 := by
+          unfold nblocks
+          simp only [hne, ite_false]
+          apply Nat.le_of_lt_succ
+          apply (Nat.div_lt_iff_lt_mul hNnpos).2
+          have a1 : q ≤ 2 * ((q + 1) / 2) := by omega
+          have a2 : q * G.length ≤ 2 * ((q + 1) / 2) * G.length := Nat.mul_le_mul_right _ a1
+          have a3 : (q + 1) / 2 * (2 * G.length) ≤ (q + 1) / 2 * Nn := Nat.mul_le_mul_left _ hNn2
+          have a4 : 2 * ((q + 1) / 2) * G.length = (q + 1) / 2 * (2 * G.length) := by
+            rw [Nat.mul_comm 2, Nat.mul_assoc]
+          rw [Nat.succ_mul, hq2]
+          omega
         have hklen : nblocks Ml.length Nn * G.length ≤ Ml.length :=
           Nat.le_trans (Nat.mul_le_mul_right _ hkq) (Nat.le_of_eq hq2.symm)
         obtain ⟨hn1, hn2⟩ := nblocks_last Ml.length Nn hNnpos
@@ -392,7 +416,7 @@ theorem nodeLevels_eq (c : Skein.Cfg) (G : List Nat) (hG : IsBytes G) (hGl : G.l
             rw [Nat.succ_mul]
           omega
         have hih := ih (l + 1) fm fs (nblocks Ml.length Nn * Nn) (Spec.Skein.treeLevel G Nn Ml (8 * Ml.length) (l + 1))
-          (by omega) (by omega) (by omega) (by omega) hposk v2 ⟨nblocks Ml.length Nn, hk, v3⟩ (by rw [v3]; omega)
+          (by omega) (by omega) (by omega) (by omega) hposk v2 ⟨nblocks Ml.length Nn, hk, v3, by omega⟩ (by rw [v3]; omega)
         have hsp : Spec.Skein.treeUp G Nn c.Ym (fs + 1) l Ml =
             Spec.Skein.treeUp G Nn c.Ym fs (l + 1) (Spec.Skein.treeLevel G Nn Ml (8 * Ml.length) (l + 1)) := by
           simp only [Spec.Skein.treeUp, hspec, ite_false, hym]
@@ -426,7 +450,7 @@ theorem treehash_step (c : Skein.Cfg) (G M : List Nat) (bitlen : Option Nat) (ts
 
 /-- `_treehash(M,bitlen)` = the specification's tree hash -/
 theorem treehash_eq (c : Skein.Cfg) (G : List Nat) (hG : IsBytes G) (hGl : G.length = 32 ∨ G.length = 64 ∨ G.length = 128)
-    (hNb : c.Nb = G.length) (h1 : 1 ≤ c.Yl) (h2 : 1 ≤ c.Yf) (h3 : 2 ≤ c.Ym) (hYm : c.Ym ≤ 127)
+    (hNb : c.Nb = G.length) (h1 : 1 ≤ c.Yl) (h2 : 1 ≤ c.Yf) (h3 : 2 ≤ c.Ym) (hYm : c.Ym ≤ 255)
     (M : List Nat) (hM : IsBytes M) (bitlen : Option Nat) (hL : bitsOf M bitlen ≤ 8 * M.length)
     (hbound : M.length + G.length * 2 ^ c.Yl + G.length * 2 ^ c.Yf < 2 ^ 96) :
     Skein.treehash c G M bitlen = .ok (Spec.Skein.tree G M (bitsOf M bitlen) c.Yl c.Yf c.Ym) ∧
@@ -448,10 +472,17 @@ theorem treehash_eq (c : Skein.Cfg) (G : List Nat) (hG : IsBytes G) (hGl : G.len
     rw [Nat.succ_mul]
   have hkG : nblocks (cutMsg M bitlen).length (G.length * 2 ^ c.Yl) * G.length ≤
       nblocks (cutMsg M bitlen).length (G.length * 2 ^ c.Yl) * (G.length * 2 ^ c.Yl) := Nat.mul_le_mul_left _ hNl
-  obtain ⟨w1, w2, w3⟩ := nodeLevels_eq c G hG hGl hNb (G.length * 2 ^ c.Yf) hNn hYm (M.length + G.length * 2 ^ c.Yl) (by omega)
+  have hNn2 : 2 * G.length ≤ G.length * 2 ^ c.Yf := by
+    rw [Nat.mul_comm 2]
+    apply Nat.mul_le_mul_left
+    calc 2 = 2 ^ 1 := rfl
+      _ ≤ 2 ^ c.Yf := Nat.pow_le_pow_right (by decide) h2
+  have hkle : nblocks (cutMsg M bitlen).length (G.length * 2 ^ c.Yl) ≤
+      nblocks (cutMsg M bitlen).length (G.length * 2 ^ c.Yl) * (G.length * 2 ^ c.Yl) := Nat.le_mul_of_pos_right _ (by omega)
+  obtain ⟨w1, w2, w3⟩ := nodeLevels_eq c G hG hGl hNb (G.length * 2 ^ c.Yf) hNn2 (M.length + G.length * 2 ^ c.Yl) (by omega)
     (c.Ym - 1) 1 256 c.Ym (nblocks (cutMsg M bitlen).length (G.length * 2 ^ c.Yl) * (G.length * 2 ^ c.Yl))
     (Spec.Skein.treeLevel G (G.length * 2 ^ c.Yl) M (bitsOf M bitlen) 1)
-    (by omega) (by omega) (by omega) (by omega) (by omega) v2 ⟨_, hk, v3⟩ (by rw [v3]; omega)
+    (by omega) (by omega) (by omega) (by omega) (by omega) v2 ⟨_, hk, v3, by simp only [Nat.reduceSub]; omega⟩ (by rw [v3]; omega)
   have hsp : Spec.Skein.tree G M (bitsOf M bitlen) c.Yl c.Yf c.Ym =
       Spec.Skein.treeUp G (G.length * 2 ^ c.Yf) c.Ym c.Ym 1 (Spec.Skein.treeLevel G (G.length * 2 ^ c.Yl) M (bitsOf M bitlen) 1) := rfl
   rw [hsp]
@@ -463,7 +494,7 @@ theorem treehash_eq (c : Skein.Cfg) (G : List Nat) (hG : IsBytes G) (hGl : G.len
 
 /-- Skein with tree parameters, end to end -/
 theorem hash_tree (Nb No Yl Yf Ym : Nat) (key prs PK kdf non : Option (List Nat)) (M : List Nat) (bitlen : Option Nat)
-    (hNb : Nb = 256 ∨ Nb = 512 ∨ Nb = 1024) (h1 : 1 ≤ Yl) (h2 : 1 ≤ Yf) (h3 : 2 ≤ Ym) (hYl : Yl ≤ 255) (hYf : Yf ≤ 255) (hYm : Ym ≤ 127)
+    (hNb : Nb = 256 ∨ Nb = 512 ∨ Nb = 1024) (h1 : 1 ≤ Yl) (h2 : 1 ≤ Yf) (h3 : 2 ≤ Ym) (hYl : Yl ≤ 255) (hYf : Yf ≤ 255) (hYm : Ym ≤ 255)
     (hM : IsBytes M) (hL : bitsOf M bitlen ≤ 8 * M.length)
     (hbound : M.length + Nb / 8 * 2 ^ Yl + Nb / 8 * 2 ^ Yf < 2 ^ 96)
     (hk : OptOk key) (hp : OptOk prs) (hP : OptOk PK) (hd : OptOk kdf) (hn : OptOk non) :
@@ -472,7 +503,7 @@ theorem hash_tree (Nb No Yl Yf Ym : Nat) (key prs PK kdf non : Option (List Nat)
               M (bitsOf M bitlen) Yl Yf Ym) No) ∧
     (Spec.Skein.output (Spec.Skein.tree (specInit Nb No Yl Yf Ym (key.getD []) (prs.getD []) (PK.getD []) (kdf.getD []) (non.getD []))
               M (bitsOf M bitlen) Yl Yf Ym) No).length = (No + 7) / 8 := by
-  obtain ⟨i1, i2, i3⟩ := initstate_eq Nb No Yl Yf Ym key prs PK kdf non hNb hYl hYf (by omega) hk hp hP hd hn
+  obtain ⟨i1, i2, i3⟩ := initstate_eq Nb No Yl Yf Ym key prs PK kdf non hNb hYl hYf hYm hk hp hP hd hn
   have hGl : (specInit Nb No Yl Yf Ym (key.getD []) (prs.getD []) (PK.getD []) (kdf.getD []) (non.getD [])).length = 32 ∨
       (specInit Nb No Yl Yf Ym (key.getD []) (prs.getD []) (PK.getD []) (kdf.getD []) (non.getD [])).length = 64 ∨
       (specInit Nb No Yl Yf Ym (key.getD []) (prs.getD []) (PK.getD []) (kdf.getD []) (non.getD [])).length = 128 := by
@@ -484,7 +515,7 @@ theorem hash_tree (Nb No Yl Yf Ym : Nat) (key prs PK kdf non : Option (List Nat)
   refine ⟨?_, o2⟩
   have hnz : ¬ (Yl = Yf ∧ Yf = Ym ∧ Ym = 0) := by omega
   unfold Skein.hash Skein.call Skein.updateMsg
-  simp only [mk_ok Nb No Yl Yf Ym key prs PK kdf non hNb hYl hYf (by omega), bind, Except.bind, i1, hnz, not_false_eq_true, ite_true, t1]
+  simp only [mk_ok Nb No Yl Yf Ym key prs PK kdf non hNb hYl hYf hYm, bind, Except.bind, i1, hnz, not_false_eq_true, ite_true, t1]
   exact o1
 
 theorem spec_tree (Nb No : Nat) (key prs pk kdf non M : List Nat) (L Yl Yf Ym : Nat) (hNb : Nb = 256 ∨ Nb = 512 ∨ Nb = 1024)
@@ -499,5 +530,48 @@ theorem spec_tree (Nb No : Nat) (key prs pk kdf non M : List Nat) (L Yl Yf Ym : 
   have hnz : ¬ (Yl = 0 ∧ Yf = 0 ∧ Ym = 0) := by omega
   unfold Spec.Skein.skein specInit
   simp only [hp, not_true_eq_false, ite_false, hnz]
+
+
+/-- parameters outside the specification (a Y value above 255, or tree parameters that are neither all zero nor
+    Yl,Yf ≥ 1, Ym ≥ 2) are rejected, whatever the other inputs are -/
+theorem hash_bad_params (Nb No Yl Yf Ym : Nat) (key prs PK kdf non : Option (List Nat)) (M : List Nat) (bitlen : Option Nat)
+    (hbad : Spec.Skein.paramsOk Nb Yl Yf Ym = false) :
+    (∃ e, Skein.hash Nb No Yl Yf Ym key prs PK kdf non M bitlen = .error e) ∧
+    Spec.Skein.skein Nb No (key.getD []) (prs.getD []) (PK.getD []) (kdf.getD []) (non.getD []) Yl Yf Ym M (bitsOf M bitlen) = none := by
+  constructor
+  · by_cases hNb : (Nb = 256 ∨ Nb = 512 ∨ Nb = 1024)
+    · by_cases hY : (Yl > 255 ∨ Yf > 255 ∨ Ym > 255)
+      · unfold Skein.hash Skein.mk
+        simp only [hNb, not_true_eq_false, ite_false, hY, ite_true, bind, Except.bind]
+        exact ⟨_, rfl⟩
+      · have hmk := mk_ok Nb No Yl Yf Ym key prs PK kdf non hNb (by omega) (by omega) (by omega)
+        -- not all zero, and one of the tree asserts fails
+        have hcond : ¬ (Yl = Yf ∧ Yf = Ym ∧ Ym = 0) ∧ (¬ (Yl ≥ 1) ∨ ¬ (Yf ≥ 1) ∨ ¬ (Ym ≥ 2)) := by
+          unfold Spec.Skein.paramsOk at hbad
+          have a : (decide (Nb = 256) || decide (Nb = 512) || decide (Nb = 1024)) = true := by
+            rcases hNb with h | h | h <;> subst h <;> decide
+          rw [a, Bool.true_and] at hbad
+          simp only [Bool.or_eq_false_iff, Bool.and_eq_false_iff, decide_eq_false_iff_not, Nat.not_le] at hbad
+          omega
+        obtain ⟨hnz, hass⟩ := hcond
+        unfold Skein.hash Skein.call Skein.updateMsg
+        simp only [hmk, bind, Except.bind]
+        cases Skein.initstate (Skein.Cfg.mk (Nb / 8) No (Spec.Skein.cfgString No Yl Yf Ym) Yl Yf Ym key prs PK kdf non) with
+        | error e => exact ⟨_, rfl⟩
+        | ok G =>
+          simp only [hnz, not_false_eq_true, ite_true, Skein.treehash]
+          rcases hass with h | h | h
+          · simp only [h, not_false_eq_true, ite_true]; exact ⟨_, rfl⟩
+          · by_cases h1 : Yl ≥ 1
+            · simp only [h1, not_true_eq_false, ite_false, h, not_false_eq_true, ite_true]; exact ⟨_, rfl⟩
+            · simp only [h1, not_false_eq_true, ite_true]; exact ⟨_, rfl⟩
+          · by_cases h1 : Yl ≥ 1
+            · by_cases h2 : Yf ≥ 1
+              · simp only [h1, h2, not_true_eq_false, ite_false, h, not_false_eq_true, ite_true]; exact ⟨_, rfl⟩
+              · simp only [h1, not_true_eq_false, ite_false, h2, not_false_eq_true, ite_true]; exact ⟨_, rfl⟩
+            · simp only [h1, not_false_eq_true, ite_true]; exact ⟨_, rfl⟩
+    · exact (hash_bad_Nb Nb No Yl Yf Ym key prs PK kdf non M bitlen hNb).1
+  · unfold Spec.Skein.skein
+    simp [hbad]
 
 end Proofs.Lemmas.SkTree
